@@ -156,6 +156,7 @@ def oracle_c07(samples):
     if len(samples) > 1:
         variants.append(list(reversed(samples)))
         variants.append(samples[1:] + samples[:1])
+        variants.append([dict(reversed(list(x.items()))) for x in samples])      # same objects, keys in reverse order
     variants.append(samples + [samples[0]])
     variants.append([samples[-1]] + samples)
     for v in variants:
